@@ -193,7 +193,8 @@ def c08(ctx, t0):
         hx = ctx.build_hx()
         res.append(ctx.run_child('readers', [hx, 'c08readers'], T(ctx, 300, 1800)))
     floors = {'kill_boundaries_hit': (counters(res, 'kill_boundaries_hit'), 60), 'model_states_distinct': (counters(res, 'model_states_distinct'), 60),
-              'kill_states_matching_model': (counters(res, 'kill_states_matching_model'), 60), 'reader_observations': (counters(res, 'reader_observations'), 1000)}
+              'kill_states_matching_model': (counters(res, 'kill_states_matching_model'), 60), 'reader_observations': (counters(res, 'reader_observations'), 1000),
+              'followup_operations_after_crash': (counters(res, 'followup_operations_after_crash'), 20)}
     return finish(ctx, 'fault_enumeration', res, COMMON_ASSUME + [
         'power-loss model as stated in the property: file data durable after fsync(file), directory entry changes durable after fsync(dir), rename atomic; a cross-directory rename is modelled as two independently losable entry operations',
         'kills land on syscall boundaries (strace injects SIGKILL on syscall entry); kill points inside a syscall and torn sector writes are not observable',
@@ -218,12 +219,15 @@ def c15(ctx, t0):
     res = []
     if want(ctx, 'faults'):
         res.append(sc_checks.c15_stage(ctx))
+    if want(ctx, 'concurrent-adds'):
+        res.append(ctx.run_child('concurrent-adds', [ctx.build_hx(), 'c15race'], T(ctx, 300, 1200)))
     if want(ctx, 'agent-readonly'):
         ctx.build_agent()
         r = ctx.run_child('agent-readonly', [ctx.build_hx(), 'c15agent'], T(ctx, 600, 1200))
         res.append(sc_checks.c15_agent_postprocess(ctx, r, os.path.join(ctx.work, 'w-agent-readonly')))
     floors = {'faults_injected': (counters(res, 'faults_injected'), 100), 'readonly_or_failing_calls': (counters(res, 'readonly_or_failing_calls'), 10),
-              'requests_total': (counters(res, 'requests_total'), 80), 'agent_syscalls_inspected': (counters(res, 'agent_syscalls_inspected'), 1000)}
+              'requests_total': (counters(res, 'requests_total'), 80), 'agent_syscalls_inspected': (counters(res, 'agent_syscalls_inspected'), 1000),
+              'pairs_with_one_failure': (counters(res, 'pairs_with_one_failure'), 10)}
     return finish(ctx, 'fault_enumeration', res, COMMON_ASSUME + [
         'faults are single syscall failures injected by strace at the syscall boundary (the syscall is not executed); multi-fault sequences are not explored',
         'errno set per syscall: ENOSPC/EIO/EACCES/EMFILE as applicable'], floors, t0)
